@@ -1079,6 +1079,8 @@ class Elab:
         fv = self.getattr(base, attr, n)
         if isinstance(fv, (Func, ClassV)):
             return self.call_value(fv, args, kwargs, n, env)
+        if isinstance(fv, Sym) and fv.path in ("Signal.like", "Record.like"):
+            return self.call_value(fv, args, kwargs, n, env)
         if isinstance(fv, Sym):
             last = attr
             if isinstance(base, Sym) and not base.path.startswith("$") and (last[:1].isupper() or last in PRIM_HINT) \
@@ -1133,6 +1135,8 @@ class Elab:
                 return TimelineS(args[0], evs, self.loc(n))
             if name in ("Signal.like", "Record.like"):
                 o = self.new_obj(name.split(".")[0], (), kwargs, n)
+                if n is not None and id(n) in self.hints:
+                    self.bind_name(o, self.hints.pop(id(n)))
                 o.meta["like"] = args[0] if args else None
                 if args and isinstance(args[0], Obj):
                     o.fields = args[0].fields
@@ -1231,9 +1235,10 @@ class Elab:
                     return Const(len(l))
                 if isinstance(a[0], Obj) and a[0].cls == "Signal":
                     return self.width_of(a[0])
-                if isinstance(a[0], Op) and a[0].op == "Cat":
-                    return Op("len", (a[0],))
-                return Op("len", (a[0],))
+                r = Op("len", (a[0],))
+                if str(r) in self.overrides:
+                    return self.overrides[str(r)]
+                return r
             if name == "range":
                 if allc and num and 1 <= len(a) <= 3:
                     r = range(*[x.v for x in a])
